@@ -25,8 +25,11 @@ CHECKS = {
         "stored front-inserted; scalar and array lookups choose the same piece; a Hermite piece (regenerated from the source) reproduces "
         "the recorded states and slopes at both ends, so sol(t_k) = y_k whichever adjacent piece answers. Tied to the code by comparing "
         "find_interval / find_interval_vec of real dense outputs (15+ methods incl. Richardson wrappers, both directions, continued, "
-        "event-resumed and fault-resumed histories) with the model bit for bit. Measured on the implementation, not proved: end slopes "
-        "equal the right-hand side at the recorded states, reproduction of recorded states, array = scalar queries, and the O(h^4) "
+        "event-resumed and fault-resumed histories) with the model bit for bit. The integrators' end-slope cache (the way a step's end "
+        "slope becomes the next piece's start slope; three past defects lived there) is modelled (DV.SlopeCache) and proved consistent after "
+        "EVERY history of completed and abandoned calls (start_slope_is_rhs_after_every_history), tied to the code by replaying call sequences "
+        "with jumps, repeated starts and calls abandoned by a fault at a random evaluation. Measured on the implementation, not proved: the end "
+        "slope a step computes equals the right-hand side at its end state (C02 gives it for the explicit model), reproduction of recorded states, array = scalar queries, and the O(h^4) "
         "interpolation bound (Peano kernel bound cited) against the closed-form solution.",
    note="Trusted: Lean kernel, standard axioms, translate.py (Hermite), harness. The slope caches of the integrators and the "
         "container's add/remove history are exercised, not modelled.",
